@@ -201,7 +201,9 @@ class DictArray(StorageBase):
             return
         if not self._path().is_file():  # nothing was persisted (yet)
             return
-        self._dict = load(self._path())
+        # Fill the existing mapping instead of rebinding it: for `SharedMemoryDictArray` it is a
+        # manager proxy that worker processes write to; a plain dict would silently drop their results.
+        self._dict.update(load(self._path()))
 
     @property
     def dump_in_subprocess(self) -> bool:
